@@ -43,6 +43,9 @@ def gen(rng, tier):
             a, b = s[:i], s[i:]
             w = lambda x: ["w:" + x.hex()] if x else []
             cs.append(Case(script_line("server", 0, w(a) + w(b) + ["e"]), kind="split", cut=1))
+            if b:
+                cs.append(Case(script_line("server", 0, w(a) + ["W:" + b.hex()]), kind="split-fin", cut=1))
+                cs.append(Case(script_line("client", 7, w(a) + ["W:" + b.hex()]), kind="split-fin", cut=1))
             cs.append(Case(script_line("client", 7, w(a) + w(b) + ["e"]), kind="split", cut=1))
             cs.append(Case(script_line("client", 7, w(a) + ["t"] + w(b) + ["e"]), kind="split-stall", cut=1))
             cs.append(Case(script_line("server", 0, w(a) + ["t"] + w(b) + ["e"]), kind="split-stall", cut=1))
@@ -82,6 +85,9 @@ def gen(rng, tier):
                 evs.insert(rng.randrange(len(evs) + 1), "t")
                 stalls += 1
         evs.append("e" if rng.random() < 0.8 or mode == "server" else "t")
+        # the peer ends the stream right behind its last octets: data and FIN pending together
+        if evs[-1] == "e" and len(evs) >= 2 and evs[-2].startswith("w:") and rng.random() < 0.5:
+            evs[-2:] = ["W:" + evs[-2][2:]]
         cs.append(Case(script_line(mode, 0 if mode == "server" else rng.choice([1, 20]), evs), kind="random-" + mode, cut=int(bad or stalls > 0), npk=n))
     return cs
 
